@@ -41,7 +41,9 @@ def hunk_ending(tok, last, r):
     nonl = last == "nonl"
     na = sum(1 for k, _ in body if k in " -")
     nb = sum(1 for k, _ in body if k in " +")
-    s = r.randint(1, 5000)
+    # line numbers of very different widths from section to section (a gutter width that leaks from
+    # one section into the next breaks the concatenation law)
+    s = r.choice([r.randint(1, 5000), r.randint(1, 9), r.randint(10000, 3000000)])
     return {"header": f"@@ -{s},{na} +{s},{nb} @@ fn f{s}()", "old_start": s, "new_start": s, "frag": "", "body": body, "no_newline": nonl}
 
 
